@@ -87,6 +87,9 @@ class SpecAnalyses:
     alias: AliasAnalysis
     summary: EscapeSummary
     unbox: UnboxAnalysis | None
+    is_called: bool = False
+    """Whether compiled code calls this spec.  Such a caller does not establish
+    the callee's entry rounding mode, so the emitter must not assume it."""
 
 
 
@@ -464,6 +467,7 @@ class CppCompiler(Backend):
             alias=alias,
             summary=summary,
             unbox=unbox,
+            is_called=is_called,
         )
 
     def signature(
@@ -531,6 +535,7 @@ class CppCompiler(Backend):
             unsafe_cast_int=self._unsafe_cast_int,
             unbox=a.unbox,
             callee_params=callee_params,
+            entry_mode_known=not a.is_called,
         )
         try:
             # Under STRICT the emitter carries its own tripwire: every handle
